@@ -7,7 +7,7 @@ from pyvc.registry import event, EMPTY, RESP_RAISES, RESP_VAL, RESP_BOOL, IS_COR
 from pyvc.symex import Raise
 from .lib import REG, S, boolterm, builtin_exc, forall, dom, val, lst, attr, cause_of, is_userobj
 from . import trace_funs as T
-from .trace_funs import Res, OK, FAIL, RAISEU, RAISEL, CW, PW, VI_RAISES, VI_VAL, VI_END
+from .trace_funs import Res, OK, FAIL, RAISEU, RAISEL, CW, PW, VI
 
 F_ = z3.BoolVal(False)
 T_ = z3.BoolVal(True)
@@ -76,25 +76,7 @@ class NotCheck(FnSpec):
         REG.emit_if(ex, st, is_userobj(c.ref("check")), "Truth", c.ref("check"))
 
 
-class CreateViolationError(FnSpec):
-    """As seen by callers: one block event Viol(contract, rho); the C09 table is the block's own contract."""
-    addr = "_checkers.py::_create_violation_error"
-    hints = {"resolved_kwargs": "dict"}
-    trace = True
-
-    def ensures_ret(self, c, v):
-        t0 = c.pre.time
-        a = (c.ref("contract"), c.ref("resolved_kwargs"), t0)
-        return [("returns", z3.Not(VI_RAISES(*a))), ("value", v.t == VI_VAL(*a)), ("not_none", v.t != NONE), ("clock", c.post.time == VI_END(*a))]
-
-    def ensures_raise(self, c, e):
-        t0 = c.pre.time
-        a = (c.ref("contract"), c.ref("resolved_kwargs"), t0)
-        return [("raises", VI_RAISES(*a)), ("value", e.t == VI_VAL(*a)), ("clock", c.post.time == VI_END(*a))]
-
-    def call_events(self, ex, st, c):
-        REG.emit(ex, st, "Viol", c.ref("contract"), c.ref("resolved_kwargs"))
-        st.time = VI_END(c.ref("contract"), c.ref("resolved_kwargs"), c.pre.time)
+from .violation import CreateViolationError  # noqa: E402  (C09: the block's own contract)
 
 
 class _PreLoops:
